@@ -330,6 +330,7 @@ impl Prop for C18 {
         if stage == 0 {
             let cfgs = configs(tier);
             for i in a..b {
+            out.idx = Some(i);
                 let cfg = cfgs[i as usize];
                 check_config(cfg, &progs, "subsets", true, out);
                 out.nontrivial.insert(cfg as u64);
@@ -341,6 +342,7 @@ impl Prop for C18 {
             }
         } else {
             for i in a..b {
+            out.idx = Some(i);
                 let n = REGS.len() as u64;
                 let cfg: u32 = if i == 0 { 0 } else if i == n + 1 { (1u32 << n) - 1 } else { 1u32 << (i - 1) };
                 check_config(cfg, &progs, "fresh", false, out);
